@@ -106,6 +106,7 @@ def execute(plan):
         rec['connects'] = list(world.connect_log)
         rec['nconns'] = len(world.conns)
         rec['peak_open'] = world.peak_open
+        rec['net_time_us'] = world.net_time_us
         rec['faults_fired'] = dict(world.faults_fired)
         rec['probes'] = dict(world.probes)
         rec['tripwires'] = list(world.tripwires)
